@@ -419,11 +419,38 @@ def exec_sut(sut, op, refs, model):
                     n = buf[off]
                     if 1 <= n <= 11:
                         buf[off + 1 : off + 1 + n] = (b"2.9.8-legacy"[:n]).ljust(n, b"0")
+            elif sut.backend == "real":
+                import builtins
+
+                tr = sut.traph
+                for path, off in ((tr.lru_trie_path, 4), (tr.link_store_path, 0)):
+                    with builtins.open(path, "r+b") as f_:
+                        f_.seek(off)
+                        n = f_.read(1)[0]
+                        if 1 <= n <= 11:
+                            f_.seek(off + 1)
+                            f_.write((b"2.9.8-legacy"[:n]).ljust(n, b"0"))
             sut.open(model.default_src, model.rules_src)
             return ("ok", None)
         if k == "reopen_overwrite":
             sut.reopen(model.default_src, model.rules_src, overwrite=True)
             return ("ok", None)
+        if k == "clear" and op.get("default") == "broken":
+            # a clear() request given a default rule that does not compile: the request fails with
+            # re.error; whether the stores were already emptied by then is not fixed by any listed
+            # property, the outcome names which it was
+            import re as _re
+
+            a0, b0 = sut.stores()
+            try:
+                sut.clear(b"(unclosed", None)
+            except _re.error:
+                try:
+                    a1, b1 = sut.stores()
+                except ValueError:
+                    return ("bad_argument", "stores unreadable")
+                return ("bad_argument", "untouched" if (a1, b1) == (a0, b0) else "emptied")
+            return ("bad_argument", "accepted")
         if k == "clear":
             d = lrugen.RULES[op["default"]] if op.get("default") else None
             rules = {dec(a): lrugen.RULES[n] for a, n in op["rules"]} if op.get("rules") is not None else None
@@ -516,6 +543,11 @@ def exec_model(model, op, refs, observed):
         if k == "reopen_overwrite":
             model.reset(None, dict(model.rules_src))
             return ("ok", None), None
+        if k == "clear" and op.get("default") == "broken":
+            if observed and observed[0] == "bad_argument" and observed[1] == "untouched":
+                return observed, None
+            model.reset(None, None)  # emptied; default rule and in-RAM registry as they were
+            return ("bad_argument", "emptied"), None
         if k == "clear":
             d = lrugen.RULES[op["default"]] if op.get("default") else None
             rules = {dec(a): lrugen.RULES[n] for a, n in op["rules"]} if op.get("rules") is not None else None
